@@ -79,6 +79,16 @@ class C12(Prop):
                         c.tags |= {"large_writes", "prog_" + "".join(prog), "inmem" if inmem else "tempfile", "consumer_before_drop"}
                         out.append(c)
                         k += 1
+        # more than 2^32 bytes staged in memory (a zoom level of a large file is staged in one buffer): the reported length is the
+        # number of bytes written, not its low 32 bits. Thorough tier only: the case holds 4 GiB in memory for a few seconds.
+        if tier == "thorough":
+            self.impl_timeout = self.sub_timeout = 90      # writing 4 GiB into a vector takes ten seconds on an idle machine
+            import vlib
+            vlib.MEM_LIMIT_GIB[0] = 24                     # … and the vector's last doubling needs room
+            c = CaseT(f"tbhuge{k}", "tempbuf", [], ["OPT inmem=1 d0=aa55", f"SCHED WN:{(1 << 32) + 4101} D L"])
+            c.tags |= {"staged_more_than_4GiB", "inmem", "prog_L", "no_shrink"}      # every shrink candidate would hold 4 GiB
+            out.append(c)
+            k += 1
         # the staging buffers where the writers use them: per chromosome the data (and every zoom level) is staged while the
         # previous chromosome is spliced into the file; the consumer redirects, waits for the producer and takes the file
         # back. Every executor flavour (also a SINGLE executor thread, where a consumer that blocks before the producer has
@@ -105,6 +115,8 @@ class C12(Prop):
         return c01.PROP.model_extra(case, il) if case.kind == "wig" else []
 
     def compare(self, case, il, ml):
+        if "staged_more_than_4GiB" in case.tags:
+            return None                       # the model driver does not materialise 2^32 bytes; judged by the oracle
         return c01.PROP.compare(case, il, ml) if case.kind == "wig" else super().compare(case, il, ml)
 
     def nontrivial(self, case, impl_lines):
@@ -119,6 +131,7 @@ class C12(Prop):
         sched = case.records("SCHED")[0][1:]
         d0 = unhex(case.opts().get("d0", "-"))
         written = b"".join(unhex(t[2:]) for t in sched if t.startswith("W:"))
+        wn = sum(int(t[3:]) for t in sched if t.startswith("WN:"))
         if any(l.startswith("R panic") for l in il):
             return "panic in the staging buffer"
         if any(l.startswith("R hang") or l.startswith("R crashed") for l in il):
@@ -141,8 +154,8 @@ class C12(Prop):
             if fin != [want]:
                 return f"destination is `{fin}` but the written bytes are `{want}`"
         if "L" in sched:
-            if fin != [f"LEN {len(written)}"]:
-                return f"reported length {fin}, bytes written {len(written)}"
+            if fin != [f"LEN {len(written) + wn}"]:
+                return f"reported length {fin}, bytes written {len(written) + wn}"
         return None
 
 
